@@ -170,7 +170,8 @@ class T1Font(object):
 
         # '-|', '|-', '|'
         RD_key, ND_key, NP_key = None, None, None
-        lenIV = 4
+        # lenIV applies to Subrs too, wherever it sits in the Private dict
+        lenIV = eexec_dict.get("Private", {}).get("lenIV", 4)
         subrs = std_subrs
 
         # Ensure we look at Private first, because we need RD_key, ND_key, NP_key and lenIV
